@@ -3,8 +3,19 @@ package sim
 import (
 	"sort"
 	"sync"
+	"sync/atomic"
 	"time"
 )
+
+// progress of the batch running in this process (read by the watchdog of a
+// single-worker child process, cmd/simcheck): runs completed, and the index
+// and sub-seed of the run in execution.
+var progDone, progIdx int64
+var progSub uint64
+
+func Progress() (done, idx int64, sub uint64) {
+	return atomic.LoadInt64(&progDone), atomic.LoadInt64(&progIdx), atomic.LoadUint64(&progSub)
+}
 
 // VioRec aggregates one (property, signature) over a batch.
 type VioRec struct {
@@ -233,7 +244,10 @@ func (b *Batch) Run() *Agg {
 				}
 				next += stride
 				mu.Unlock()
+				atomic.StoreInt64(&progIdx, i)
+				atomic.StoreUint64(&progSub, b.SubSeed(i))
 				r := b.World.Generate(b.SubSeed(i), b.Opt)
+				atomic.AddInt64(&progDone, 1)
 				if r.Case != nil {
 					r.Case.Seed = b.Opt.Seed
 				}
